@@ -488,11 +488,31 @@ type paramBind struct {
 }
 
 func forHeader(info *types.Info, f *ast.ForStmt) (v, init, bound ast.Expr, op token.Token, step ast.Expr, ok bool) {
-	if f == nil || f.Init == nil || f.Cond == nil || f.Post == nil {
+	if f == nil || f.Init == nil || f.Post == nil {
 		return
 	}
+	cond := f.Cond
+	if cond == nil {
+		// the loop condition written as a leading guard: `if i > last { break }`
+		if len(f.Body.List) == 0 {
+			return
+		}
+		ifs, isIf := f.Body.List[0].(*ast.IfStmt)
+		if !isIf || ifs.Init != nil || ifs.Else != nil || len(ifs.Body.List) != 1 {
+			return
+		}
+		if br, isBr := ifs.Body.List[0].(*ast.BranchStmt); !isBr || br.Tok != token.BREAK || br.Label != nil {
+			return
+		}
+		g, isBin := ast.Unparen(ifs.Cond).(*ast.BinaryExpr)
+		neg, has := map[token.Token]token.Token{token.GTR: token.LEQ, token.GEQ: token.LSS, token.LSS: token.GEQ, token.LEQ: token.GTR}[gOp(g)]
+		if !isBin || !has {
+			return
+		}
+		cond = &ast.BinaryExpr{X: g.X, Op: neg, Y: g.Y, OpPos: g.OpPos}
+	}
 	as, isAs := f.Init.(*ast.AssignStmt)
-	cb, isBin := ast.Unparen(f.Cond).(*ast.BinaryExpr)
+	cb, isBin := ast.Unparen(cond).(*ast.BinaryExpr)
 	if !isAs || len(as.Lhs) != 1 || len(as.Rhs) != 1 || !isBin {
 		return
 	}
@@ -526,6 +546,13 @@ func enclosingFors(root, n ast.Node) []*ast.ForStmt {
 		}
 	}
 	return out
+}
+
+func gOp(b *ast.BinaryExpr) token.Token {
+	if b == nil {
+		return token.ILLEGAL
+	}
+	return b.Op
 }
 
 // enclosingLoops lists the for/range statements around n, outermost first.
@@ -787,7 +814,7 @@ func (it *interp) r3() {
 	want := P.add(a.mul(C), 1).add(b, 1)
 	c.Check("R3.ranges", "group-dest", lay.grp.node.Pos(), lay.grp.dst.eq(want),
 		fmt.Sprintf("kept group a, element b must land at %v (found %v): otherwise kept keys overwrite each other or leave nil holes in the forwarded command", lay.rename(want, lay.grp), lay.rename(lay.grp.dst, lay.grp)))
-	t := lay.tail.src
+	t := lay.tail.src // the argument position being copied
 	want = P.add(k.mul(C), 1).add(t, 1).add(T, -1)
 	c.Check("R3.ranges", "tail-dest", lay.tail.node.Pos(), lay.tail.dst.eq(want),
 		fmt.Sprintf("tail argument t must land right after the kept groups, at %v (found %v): otherwise trailing options overwrite kept keys or are misplaced", lay.rename(want, lay.tail), lay.rename(lay.tail.dst, lay.tail)))
